@@ -10,6 +10,7 @@ structure PendOk (cs : CtxSt) : Prop where
   fresh : ∀ id, cs.nextReq ≤ id → cs.byId id = none ∧ cs.pobj id = none
   byKey_some : ∀ k pid, cs.byKey k = some pid → cs.pobj pid ≠ none
   byKey_obj : ∀ k pid po, cs.byKey k = some pid → cs.pobj pid = some po → po.key = k ∧ po.done = none
+  byKey_cur : ∀ k pid po, cs.byKey k = some pid → cs.pobj pid = some po → cs.byId po.cur = some pid
 
 def PendInv (s : State) : Prop := ∀ c, PendOk (s.ctx c)
 
@@ -31,6 +32,7 @@ theorem handleReplyStep_pendOk {cs cs' : CtxSt} {id : ReqId} {ok : Bool} {more :
       have a4 := h.fresh
       have a5 := h.byKey_some
       have a6 := h.byKey_obj
+      have a7 := h.byKey_cur
       split at hs
       · simp only [Option.some.injEq, Prod.mk.injEq] at hs
         obtain ⟨rfl, -, -⟩ := hs
@@ -75,6 +77,14 @@ theorem PendOk.cancel {cs : CtxSt} (h : PendOk cs) (l : Key → List Rcv) (g : R
       simp only [hp, Option.map_some, Option.some.injEq] at hpo
       subst hpo
       simpa using h.byKey_obj k pid po0 hk hp
+  · intro k pid po hk hpo
+    simp only at hpo
+    cases hp : cs.pobj pid with
+    | none => simp [hp] at hpo
+    | some po0 =>
+      simp only [hp, Option.map_some, Option.some.injEq] at hpo
+      subst hpo
+      simpa using h.byKey_cur k pid po0 hk hp
 
 set_option maxHeartbeats 1000000 in
 theorem pendInv_micro {s s' : State} {th : Th} {ch ch2 : Nat} {op : MOp} {rest : List MOp} {o : Out}
@@ -86,6 +96,7 @@ theorem pendInv_micro {s s' : State} {th : Th} {ch ch2 : Nat} {op : MOp} {rest :
   have a4 := h0.fresh
   have a5 := h0.byKey_some
   have a6 := h0.byKey_obj
+  have a7 := h0.byKey_cur
   cases op <;> simp only [microStep] at hs
   all_goals (try (split at hs))
   all_goals (try (split at hs))
@@ -109,6 +120,7 @@ theorem PendOk.of_same {a b : CtxSt} (h : PendOk b) (e : SameTables a b) : PendO
   have a4 := h.fresh
   have a5 := h.byKey_some
   have a6 := h.byKey_obj
+  have a7 := h.byKey_cur
   constructor <;> intros <;> simp only [e.pobj, e.byId, e.byKey, e.nextReq] at * <;> grind
 
 theorem pendInv_step {s s' : State} {a : Act} {o : Out} (h : PendInv s) (hs : step s a = some (s', o)) : PendInv s' := by
